@@ -297,6 +297,11 @@ func checkC07(e *core.Env) {
 		pan = guard(func() { srv.ServeHTTP(rec, req) })
 		runtime.ReadMemStats(&ms1)
 		herr, returned = run.HandlerReturn()
+		for _, ev := range run.Events() {
+			if ev.Pan != "" && pan == "" {
+				pan = ev.Who + "." + ev.Op + ": " + ev.Pan // recovered by the actor, still a library panic
+			}
+		}
 		_, ntr := parseReplyFrames(rec.Body.Bytes())
 		return run.Rets("h", "recv"), herr, returned, rec.Code, ntr, pan, ms1.TotalAlloc - ms0.TotalAlloc
 	}
